@@ -2,6 +2,18 @@ import NeumannModel.Paths.KCoreProofs
 /-
   C18 — `strongly_connected_components`: the recursive Tarjan model of `AlgoModel.lean`
   (`tjVisit` / `tjNbrs` / `tjAll`) answers exactly the strongly connected components.
+
+  Part 1: `nbrSet … .out` is the one-step relation `SStep` (`mem_nbrSet_out`).
+  Part 2: the fuel-bounded mutual recursion equals two structurally recursive functions over an
+          abstract successor function (`tjVisitF`, `tjNbrsF`, `sccComponents_eq_F`).
+  Part 3: the invariant `TjInv` (stack strictly decreasing in index and reaching upward, visited =
+          stack ∪ components without repetition, components closed under successors, strongly connected
+          and maximal), the loop state `TjLoop` (everything above `v` on the stack reaches `v`, every
+          edge out of a finished stack entry above `v` ends at an indexed node whose index is at least
+          `low[v]` when it lies below `v`, `low[v]` is the index of a stack entry reachable from `v`),
+          the mutual post-conditions `tjNbrsF_spec` / `tjVisitF_spec` by induction on the fuel
+          (adequate as soon as it exceeds the number of nodes without an index).
+  Part 4: `scc_partition`, `scc_members_mutually_reachable`, `scc_closed`, `scc_exact`, closed examples.
 -/
 namespace Neumann.Paths
 
@@ -39,8 +51,7 @@ theorem tj_mem_neighborsRawT_out (g : Graph) (etype : Option Nat) (u v : Nat) :
             refine ⟨h1.2, e, he, ht, .inr ⟨?_, h1.1, rfl⟩⟩
             simp only [Bool.or_eq_true, beq_iff_eq, Bool.and_eq_true, Bool.not_eq_true'] at hio
             rcases hio with h2 | h2
-            · exact absurd (h2.symm.trans h1.1 ▸ rfl : e.src = e.src) (by
-                intro _; exact h1.2 (h2.trans h1.1.symm ▸ rfl))
+            · exact absurd h2 h1.2
             · exact h2.1
           · simp at hv
     · simp at h
@@ -52,8 +63,7 @@ theorem tj_mem_neighborsRawT_out (g : Graph) (etype : Option Nat) (u v : Nat) :
     · left
       subst h1; subst h2
       refine ⟨e, ⟨he, by simp [hd]⟩, ?_⟩
-      have hne' : ¬ e.dst = e.src := fun h => hne h.symm
-      simp [ht, hne, hne']
+      simp [ht, hne]
 
 theorem mem_nbrSet_out (g : Graph) (etype : Option Nat) (u v : Nat) :
     v ∈ nbrSet g etype .out u ↔ SStep g etype u v := by
@@ -65,15 +75,912 @@ theorem mem_nbrSet_out (g : Graph) (etype : Option Nat) (u v : Nat) :
   · rintro ⟨h1, h3, h2⟩
     exact ⟨⟨h1, h2⟩, h3⟩
 
+/-! ### the algorithm as two structurally recursive functions over an abstract successor function -/
+
+/-- the successor loop over an abstract `visit` -/
+def tjNbrsF (visit : Nat → TjSt → TjSt) (v : Nat) : List Nat → TjSt → TjSt
+  | [], st => st
+  | w :: ws, st =>
+    match nmGet st.indices w with
+    | none =>
+      let st' := visit w st
+      let lowV := (nmGet st'.low v).getD 0
+      let lowW := (nmGet st'.low w).getD 0
+      tjNbrsF visit v ws { st' with low := (v, min lowV lowW) :: st'.low }
+    | some idxW =>
+      if st.stack.contains w then
+        let lowV := (nmGet st.low v).getD 0
+        tjNbrsF visit v ws { st with low := (v, min lowV idxW) :: st.low }
+      else tjNbrsF visit v ws st
+
+def tjVisitF (succ : Nat → List Nat) : Nat → Nat → TjSt → TjSt
+  | 0, _, st => st
+  | fuel + 1, v, st =>
+    let st1 : TjSt := { st with indices := (v, st.index) :: st.indices, low := (v, st.index) :: st.low,
+                                index := st.index + 1, stack := v :: st.stack }
+    let st2 := tjNbrsF (tjVisitF succ fuel) v (succ v) st1
+    if nmGet st2.low v == nmGet st2.indices v then
+      let r := tjPop v st2.stack []
+      { st2 with stack := r.2, comps := r.1 :: st2.comps }
+    else st2
+
+def tjAllF (visit : Nat → TjSt → TjSt) : List Nat → TjSt → TjSt
+  | [], st => st
+  | n :: ns, st =>
+    match nmGet st.indices n with
+    | none => tjAllF visit ns (visit n st)
+    | some _ => tjAllF visit ns st
+
+theorem tjNbrs_eq_F (g : Graph) (etype : Option Nat) (fuel : Nat) (visit : Nat → TjSt → TjSt)
+    (hv : ∀ w st, tjVisit g etype fuel w st = visit w st) (v : Nat) :
+    ∀ ws st, tjNbrs g etype fuel v ws st = tjNbrsF visit v ws st := by
+  intro ws
+  induction ws with
+  | nil => intro st; rw [tjNbrs, tjNbrsF]
+  | cons w ws ih =>
+    intro st
+    rw [tjNbrs, tjNbrsF]
+    cases h : nmGet st.indices w with
+    | none => simp only [hv, ih]
+    | some k => simp only [ih]
+
+theorem tjVisit_eq_F (g : Graph) (etype : Option Nat) :
+    ∀ fuel v st, tjVisit g etype fuel v st = tjVisitF (nbrSet g etype .out) fuel v st := by
+  intro fuel
+  induction fuel with
+  | zero => intro v st; rw [tjVisit, tjVisitF]
+  | succ fuel ih =>
+    intro v st
+    rw [tjVisit, tjVisitF]
+    simp only [tjNbrs_eq_F g etype fuel _ ih]
+
+theorem tjAll_eq_F (g : Graph) (etype : Option Nat) (fuel : Nat) :
+    ∀ ns st, tjAll g etype fuel ns st = tjAllF (tjVisitF (nbrSet g etype .out) fuel) ns st := by
+  intro ns
+  induction ns with
+  | nil => intro st; rfl
+  | cons n ns ih =>
+    intro st
+    rw [tjAll, tjAllF]
+    cases h : nmGet st.indices n with
+    | none => simp only [ih, tjVisit_eq_F]
+    | some k => simp only [ih]
+
+theorem sccComponents_eq_F (g : Graph) (etype : Option Nat) :
+    sccComponents g etype =
+      (tjAllF (tjVisitF (nbrSet g etype .out) (g.nodes.length + 1)) (g.nodes.map (·.id))
+        { index := 0, indices := [], low := [], stack := [], comps := [] }).comps.reverse := by
+  unfold sccComponents
+  rw [tjAll_eq_F]
+
+/-! ### abstract reachability, numbering, fuel measure -/
+
+inductive TjReach (succ : Nat → List Nat) : Nat → Nat → Prop
+  | refl (u : Nat) : TjReach succ u u
+  | step {u v w : Nat} : v ∈ succ u → TjReach succ v w → TjReach succ u w
+
+theorem TjReach.trans {succ : Nat → List Nat} {a b c : Nat} (h1 : TjReach succ a b)
+    (h2 : TjReach succ b c) : TjReach succ a c := by
+  induction h1 with
+  | refl => exact h2
+  | step h _ ih => exact .step h (ih h2)
+
+theorem TjReach.one {succ : Nat → List Nat} {a b : Nat} (h : b ∈ succ a) : TjReach succ a b :=
+  .step h (.refl _)
+
+theorem tj_closed_reach {succ : Nat → List Nat} {S : Nat → Prop}
+    (hS : ∀ x, S x → ∀ w, w ∈ succ x → S w) {a b : Nat} (h : TjReach succ a b) (ha : S a) : S b := by
+  induction h with
+  | refl => exact ha
+  | step h _ ih => exact ih (hS _ ha _ h)
+
+def tjNum (m : NatMap) (x : Nat) : Nat := (nmGet m x).getD 0
+
+def TjExt (m m' : NatMap) : Prop := ∀ x k, nmGet m x = some k → nmGet m' x = some k
+
+theorem TjExt.refl (m : NatMap) : TjExt m m := fun _ _ h => h
+
+theorem TjExt.trans {a b c : NatMap} (h1 : TjExt a b) (h2 : TjExt b c) : TjExt a c :=
+  fun x k h => h2 x k (h1 x k h)
+
+theorem TjExt.vis {m m' : NatMap} (h : TjExt m m') {x : Nat} (hx : nmGet m x ≠ none) :
+    nmGet m' x ≠ none := by
+  cases hk : nmGet m x with
+  | none => exact absurd hk hx
+  | some k => rw [h x k hk]; simp
+
+theorem TjExt.num {m m' : NatMap} (h : TjExt m m') {x : Nat} (hx : nmGet m x ≠ none) :
+    tjNum m' x = tjNum m x := by
+  cases hk : nmGet m x with
+  | none => exact absurd hk hx
+  | some k => unfold tjNum; rw [h x k hk, hk]
+
+theorem tjNum_of_some {m : NatMap} {x k : Nat} (h : nmGet m x = some k) : tjNum m x = k := by
+  unfold tjNum; rw [h]; rfl
+
+/-- number of nodes without an index -/
+def tjUnv (nodes : List Nat) (m : NatMap) : Nat := (nodes.filter (fun n => (nmGet m n).isNone)).length
+
+theorem tjUnv_mono (nodes : List Nat) {m m' : NatMap} (h : ∀ x, nmGet m x ≠ none → nmGet m' x ≠ none) :
+    tjUnv nodes m' ≤ tjUnv nodes m := by
+  unfold tjUnv
+  induction nodes with
+  | nil => simp
+  | cons a as ih =>
+    simp only [List.filter_cons]
+    by_cases h1 : nmGet m a = none
+    · by_cases h2 : nmGet m' a = none
+      · simp only [h1, h2, Option.isNone_none, if_true, List.length_cons]; omega
+      · have : (nmGet m' a).isNone = false := by
+          cases hk : nmGet m' a with
+          | none => exact absurd hk h2
+          | some k => rfl
+        simp only [h1, this, Option.isNone_none, if_true, List.length_cons]
+        simp only [Bool.false_eq_true, if_false]; omega
+    · have h2 := h a h1
+      have e1 : (nmGet m a).isNone = false := by
+        cases hk : nmGet m a with
+        | none => exact absurd hk h1
+        | some k => rfl
+      have e2 : (nmGet m' a).isNone = false := by
+        cases hk : nmGet m' a with
+        | none => exact absurd hk h2
+        | some k => rfl
+      simp only [e1, e2, Bool.false_eq_true, if_false]; exact ih
+
+theorem tjUnv_lt (nodes : List Nat) {m m' : NatMap} (h : ∀ x, nmGet m x ≠ none → nmGet m' x ≠ none)
+    {v : Nat} (hv : v ∈ nodes) (h1 : nmGet m v = none) (h2 : nmGet m' v ≠ none) :
+    tjUnv nodes m' < tjUnv nodes m := by
+  induction nodes with
+  | nil => simp at hv
+  | cons a as ih =>
+    have hm := tjUnv_mono as h
+    unfold tjUnv at hm ih ⊢
+    simp only [List.filter_cons]
+    by_cases hav : a = v
+    · subst hav
+      have e2 : (nmGet m' a).isNone = false := by
+        cases hk : nmGet m' a with
+        | none => exact absurd hk h2
+        | some k => rfl
+      simp only [h1, e2, Option.isNone_none, if_true, List.length_cons, Bool.false_eq_true, if_false]
+      omega
+    · have hv' : v ∈ as := by
+        rcases List.mem_cons.1 hv with h3 | h3
+        · exact absurd h3.symm hav
+        · exact h3
+      have := ih hv'
+      by_cases h3 : nmGet m a = none
+      · by_cases h4 : nmGet m' a = none
+        · simp only [h3, h4, Option.isNone_none, if_true, List.length_cons]; omega
+        · have e2 : (nmGet m' a).isNone = false := by
+            cases hk : nmGet m' a with
+            | none => exact absurd hk h4
+            | some k => rfl
+          simp only [h3, e2, Option.isNone_none, if_true, List.length_cons, Bool.false_eq_true, if_false]
+          omega
+      · have h4 := h a h3
+        have e1 : (nmGet m a).isNone = false := by
+          cases hk : nmGet m a with
+          | none => exact absurd hk h3
+          | some k => rfl
+        have e2 : (nmGet m' a).isNone = false := by
+          cases hk : nmGet m' a with
+          | none => exact absurd hk h4
+          | some k => rfl
+        simp only [e1, e2, Bool.false_eq_true, if_false]; exact this
+
+theorem tjUnv_le_length (nodes : List Nat) (m : NatMap) : tjUnv nodes m ≤ nodes.length := by
+  unfold tjUnv; exact List.length_filter_le _ _
+
+theorem tjPop_append (v : Nat) : ∀ (s2 rest comp : List Nat), v ∉ s2 →
+    tjPop v (s2 ++ v :: rest) comp = (comp.reverse ++ s2 ++ [v], rest) := by
+  intro s2
+  induction s2 with
+  | nil =>
+    intro rest comp _
+    simp only [List.nil_append, tjPop, beq_self_eq_true, if_true, List.reverse_cons, List.append_nil]
+  | cons a s2 ih =>
+    intro rest comp hv
+    have hav : ¬ a = v := fun h => hv (by simp [h])
+    have hv' : v ∉ s2 := fun h => hv (by simp [h])
+    simp only [List.cons_append, tjPop, beq_iff_eq, hav, if_false]
+    rw [ih rest (a :: comp) hv']
+    simp only [List.reverse_cons, List.append_assoc, List.cons_append, List.nil_append]
+
+/-! ### the invariant -/
+
+/-- relation between a stack entry `y` and an entry `x` below it -/
+def TjRel (succ : Nat → List Nat) (m : NatMap) (y x : Nat) : Prop :=
+  tjNum m x < tjNum m y ∧ TjReach succ x y
+
+structure TjInv (succ : Nat → List Nat) (nodes : List Nat) (st : TjSt) : Prop where
+  stk : st.stack.Pairwise (TjRel succ st.indices)
+  vis : ∀ x, nmGet st.indices x ≠ none ↔ (x ∈ st.stack ∨ x ∈ st.comps.flatten)
+  nd : (st.stack ++ st.comps.flatten).Nodup
+  lt : ∀ x k, nmGet st.indices x = some k → k < st.index
+  node : ∀ x, nmGet st.indices x ≠ none → x ∈ nodes
+  closed : ∀ x, x ∈ st.comps.flatten → ∀ w, w ∈ succ x → w ∈ st.comps.flatten
+  conn : ∀ c, c ∈ st.comps → ∀ x, x ∈ c → ∀ y, y ∈ c → TjReach succ x y
+  maxl : ∀ c, c ∈ st.comps → ∀ x, x ∈ c → ∀ y, TjReach succ x y → TjReach succ y x → y ∈ c
+
+theorem TjInv.set_low {succ : Nat → List Nat} {nodes : List Nat} {st : TjSt}
+    (h : TjInv succ nodes st) (m : NatMap) : TjInv succ nodes { st with low := m } :=
+  ⟨h.stk, h.vis, h.nd, h.lt, h.node, h.closed, h.conn, h.maxl⟩
+
+theorem TjInv.stack_vis {succ : Nat → List Nat} {nodes : List Nat} {st : TjSt}
+    (h : TjInv succ nodes st) {x : Nat} (hx : x ∈ st.stack) : nmGet st.indices x ≠ none :=
+  (h.vis x).2 (.inl hx)
+
+theorem TjInv.num_lt {succ : Nat → List Nat} {nodes : List Nat} {st : TjSt}
+    (h : TjInv succ nodes st) {x : Nat} (hx : nmGet st.indices x ≠ none) : tjNum st.indices x < st.index := by
+  cases hk : nmGet st.indices x with
+  | none => exact absurd hk hx
+  | some k => rw [tjNum_of_some hk]; exact h.lt x k hk
+
+theorem tj_pairwise_congr {succ : Nat → List Nat} {m m' : NatMap} :
+    ∀ (l : List Nat), (∀ x, x ∈ l → tjNum m' x = tjNum m x) →
+      l.Pairwise (TjRel succ m) → l.Pairwise (TjRel succ m') := by
+  intro l
+  induction l with
+  | nil => intro _ _; exact List.Pairwise.nil
+  | cons a l ih =>
+    intro h hp
+    rw [List.pairwise_cons] at hp ⊢
+    refine ⟨fun x hx => ?_, ih (fun x hx => h x (List.mem_cons_of_mem _ hx)) hp.2⟩
+    have := hp.1 x hx
+    unfold TjRel at this ⊢
+    rw [h x (List.mem_cons_of_mem _ hx), h a List.mem_cons_self]
+    exact this
+
+/-- facts about a stack of the shape `s2 ++ v :: s0` -/
+theorem TjInv.split {succ : Nat → List Nat} {nodes : List Nat} {st : TjSt}
+    (h : TjInv succ nodes st) {s2 s0 : List Nat} {v : Nat} (hs : st.stack = s2 ++ v :: s0) :
+    (∀ x, x ∈ s2 → tjNum st.indices v < tjNum st.indices x) ∧
+    (∀ x, x ∈ s0 → tjNum st.indices x < tjNum st.indices v ∧ TjReach succ x v) ∧
+    (∀ x, x ∈ s2 → TjReach succ v x) := by
+  have hp := h.stk
+  rw [hs, List.pairwise_append, List.pairwise_cons] at hp
+  refine ⟨fun x hx => (hp.2.2 x hx v List.mem_cons_self).1, fun x hx => hp.2.1.1 x hx,
+    fun x hx => (hp.2.2 x hx v List.mem_cons_self).2⟩
+
+/-! ### the successor loop -/
+
+/-- state of the loop of `v`: the stack is `s2 ++ v :: s0`, `l` is `low[v]` -/
+structure TjLoop (succ : Nat → List Nat) (v : Nat) (s0 : List Nat) (st : TjSt) (s2 : List Nat) (l : Nat) :
+    Prop where
+  stack : st.stack = s2 ++ v :: s0
+  low : nmGet st.low v = some l
+  le : l ≤ tjNum st.indices v
+  wit : ∃ z, z ∈ v :: s0 ∧ tjNum st.indices z = l ∧ TjReach succ v z
+  up : ∀ x, x ∈ s2 → TjReach succ x v
+  edges : ∀ x, x ∈ s2 → ∀ w, w ∈ succ x →
+    nmGet st.indices w ≠ none ∧ (w ∈ s0 → l ≤ tjNum st.indices w)
+
+theorem TjLoop.step {succ : Nat → List Nat} {v : Nat} {s0 : List Nat} {st st' : TjSt} {s2 : List Nat} {l : Nat}
+    (hl : TjLoop succ v s0 st s2 l) (hvs : ∀ x, x ∈ st.stack → nmGet st.indices x ≠ none)
+    (hext : TjExt st.indices st'.indices)
+    (t : List Nat) (hstack : st'.stack = t ++ st.stack) (k : Nat)
+    (hk : k < l → ∃ z, z ∈ v :: s0 ∧ tjNum st'.indices z = k ∧ TjReach succ v z)
+    (hup : ∀ x, x ∈ t → TjReach succ x v)
+    (hedges : ∀ x, x ∈ t → ∀ y, y ∈ succ x →
+      nmGet st'.indices y ≠ none ∧ (y ∈ s0 → k ≤ tjNum st'.indices y)) :
+    TjLoop succ v s0 { st' with low := (v, min l k) :: st'.low } (t ++ s2) (min l k) := by
+  have hv0 : ∀ x, x ∈ v :: s0 → nmGet st.indices x ≠ none := fun x hx =>
+    hvs x (by rw [hl.stack]; exact List.mem_append_right _ hx)
+  refine ⟨?_, ?_, ?_, ?_, ?_, ?_⟩
+  · show st'.stack = _
+    rw [hstack, hl.stack, List.append_assoc]
+  · show nmGet ((v, min l k) :: st'.low) v = _
+    rw [kc_nmGet_cons, if_pos rfl]
+  · show min l k ≤ tjNum st'.indices v
+    rw [hext.num (hv0 v List.mem_cons_self)]
+    have := hl.le
+    omega
+  · show ∃ z, z ∈ v :: s0 ∧ tjNum st'.indices z = min l k ∧ TjReach succ v z
+    by_cases hkl : k < l
+    · rcases hk hkl with ⟨z, hz, hn, hr⟩
+      exact ⟨z, hz, by rw [hn]; omega, hr⟩
+    · rcases hl.wit with ⟨z, hz, hn, hr⟩
+      exact ⟨z, hz, by rw [hext.num (hv0 z hz), hn]; omega, hr⟩
+  · intro x hx
+    rcases List.mem_append.1 hx with h | h
+    · exact hup x h
+    · exact hl.up x h
+  · intro x hx w hw
+    show nmGet st'.indices w ≠ none ∧ (w ∈ s0 → min l k ≤ tjNum st'.indices w)
+    rcases List.mem_append.1 hx with h | h
+    · have := hedges x h w hw
+      exact ⟨this.1, fun h0 => by have := this.2 h0; omega⟩
+    · have := hl.edges x h w hw
+      refine ⟨hext.vis this.1, fun h0 => ?_⟩
+      rw [hext.num this.1]
+      have := this.2 h0
+      omega
+
+structure TjVisitPost (succ : Nat → List Nat) (nodes : List Nat) (w : Nat) (st st' : TjSt) : Prop where
+  inv : TjInv succ nodes st'
+  ext : TjExt st.indices st'.indices
+  lowf : ∀ x, nmGet st.indices x ≠ none → nmGet st'.low x = nmGet st.low x
+  idx : nmGet st'.indices w = some st.index
+  out : (st'.stack = st.stack ∧ nmGet st'.low w = some st.index) ∨
+        (∃ s2 l, st'.stack = s2 ++ w :: st.stack ∧ nmGet st'.low w = some l ∧ l < st.index ∧
+           (∃ z, z ∈ st.stack ∧ tjNum st'.indices z = l ∧ TjReach succ w z) ∧
+           (∀ x, x ∈ s2 → TjReach succ x w) ∧
+           (∀ x, x ∈ s2 ++ [w] → ∀ y, y ∈ succ x →
+              nmGet st'.indices y ≠ none ∧ (y ∈ st.stack → l ≤ tjNum st'.indices y)))
+
+def TjVisitSpec (succ : Nat → List Nat) (nodes : List Nat) (fuel : Nat) (visit : Nat → TjSt → TjSt) : Prop :=
+  ∀ w st, TjInv succ nodes st → nmGet st.indices w = none → w ∈ nodes →
+    (∀ x, x ∈ st.stack → TjReach succ x w) → tjUnv nodes st.indices < fuel →
+    TjVisitPost succ nodes w st (visit w st)
+
+structure TjLoopPost (succ : Nat → List Nat) (nodes : List Nat) (v : Nat) (s0 ws : List Nat)
+    (st st' : TjSt) (l : Nat) : Prop where
+  inv : TjInv succ nodes st'
+  loop : ∃ s2' l', TjLoop succ v s0 st' s2' l' ∧ l' ≤ l ∧
+    (∀ w, w ∈ ws → nmGet st'.indices w ≠ none ∧ (w ∈ s0 → l' ≤ tjNum st'.indices w))
+  ext : TjExt st.indices st'.indices
+  lowf : ∀ x, nmGet st.indices x ≠ none → x ≠ v → nmGet st'.low x = nmGet st.low x
+
+theorem TjLoopPost.cons {succ : Nat → List Nat} {nodes : List Nat} {v : Nat} {s0 ws : List Nat}
+    {st stb st' : TjSt} {l lb w : Nat}
+    (hle : lb ≤ l) (hext : TjExt st.indices stb.indices)
+    (hlowf : ∀ x, nmGet st.indices x ≠ none → x ≠ v → nmGet stb.low x = nmGet st.low x)
+    (hw : nmGet stb.indices w ≠ none ∧ (w ∈ s0 → lb ≤ tjNum stb.indices w))
+    (hp : TjLoopPost succ nodes v s0 ws stb st' lb) :
+    TjLoopPost succ nodes v s0 (w :: ws) st st' l := by
+  rcases hp.loop with ⟨s2', l', hl', hle', hws⟩
+  refine ⟨hp.inv, ⟨s2', l', hl', by omega, ?_⟩, hext.trans hp.ext, ?_⟩
+  · intro x hx
+    rcases List.mem_cons.1 hx with h | h
+    · subst h
+      refine ⟨hp.ext.vis hw.1, fun h0 => ?_⟩
+      rw [hp.ext.num hw.1]
+      have := hw.2 h0
+      omega
+    · exact hws x h
+  · intro x hx hxv
+    rw [hp.lowf x (hext.vis hx) hxv, hlowf x hx hxv]
+
+theorem tjNbrsF_spec {succ : Nat → List Nat} {nodes : List Nat} {fuel : Nat} {visit : Nat → TjSt → TjSt}
+    (hsucc : ∀ u w, w ∈ succ u → w ∈ nodes) (hvisit : TjVisitSpec succ nodes fuel visit)
+    (v : Nat) (s0 : List Nat) :
+    ∀ (ws : List Nat) (st : TjSt) (s2 : List Nat) (l : Nat), (∀ w, w ∈ ws → w ∈ succ v) →
+      TjInv succ nodes st → TjLoop succ v s0 st s2 l → tjUnv nodes st.indices < fuel →
+      TjLoopPost succ nodes v s0 ws st (tjNbrsF visit v ws st) l := by
+  intro ws
+  induction ws with
+  | nil =>
+    intro st s2 l _ hinv hl _
+    rw [tjNbrsF]
+    exact ⟨hinv, ⟨s2, l, hl, Nat.le_refl _, fun w hw => by simp at hw⟩, TjExt.refl _, fun _ _ _ => rfl⟩
+  | cons w ws ih =>
+    intro st s2 l hws hinv hl hfuel
+    have hwv : w ∈ succ v := hws w List.mem_cons_self
+    have hws' : ∀ x, x ∈ ws → x ∈ succ v := fun x hx => hws x (List.mem_cons_of_mem _ hx)
+    have hsp := hinv.split hl.stack
+    have hvs : ∀ x, x ∈ st.stack → nmGet st.indices x ≠ none := fun x hx => hinv.stack_vis hx
+    have hvvis : nmGet st.indices v ≠ none := hvs v (by rw [hl.stack]; simp)
+    rw [tjNbrsF]
+    cases hw : nmGet st.indices w with
+    | none =>
+      simp only []
+      -- the recursive call
+      have hpre : ∀ x, x ∈ st.stack → TjReach succ x w := by
+        intro x hx
+        rw [hl.stack] at hx
+        rcases List.mem_append.1 hx with h | h
+        · exact (hl.up x h).trans (.one hwv)
+        · rcases List.mem_cons.1 h with h | h
+          · subst h; exact .one hwv
+          · exact (hsp.2.1 x h).2.trans (.one hwv)
+      have hp := hvisit w st hinv hw (hsucc v w hwv) hpre hfuel
+      generalize visit w st = sta at hp ⊢
+      have hlowv : nmGet sta.low v = some l := by rw [hp.lowf v hvvis, hl.low]
+      have hwnum : tjNum sta.indices w = st.index := tjNum_of_some hp.idx
+      have hwvis : nmGet sta.indices w ≠ none := by rw [hp.idx]; simp
+      have hws0 : w ∉ s0 := fun h => by
+        have := hvs w (by rw [hl.stack]; simp [h])
+        exact this hw
+      have hfuel' : tjUnv nodes sta.indices < fuel :=
+        Nat.lt_of_le_of_lt (tjUnv_mono nodes (fun x hx => hp.ext.vis hx)) hfuel
+      have hlv : l < st.index := Nat.lt_of_le_of_lt hl.le (hinv.num_lt hvvis)
+      rw [hlowv]
+      rcases hp.out with ⟨hstk, hloww⟩ | ⟨sw, lw, hstk, hloww, hlwlt, ⟨z, hz, hzn, hzr⟩, hupw, hedw⟩
+      · -- `w` was a root
+        rw [hloww]
+        simp only [Option.getD_some]
+        have hl' := hl.step hvs hp.ext [] (by rw [hstk]; rfl) st.index
+          (fun h => by omega) (fun x hx => by simp at hx) (fun x hx => by simp at hx)
+        have hinv' := hp.inv.set_low ((v, min l st.index) :: sta.low)
+        refine TjLoopPost.cons (stb := { sta with low := (v, min l st.index) :: sta.low })
+          (Nat.min_le_left _ _) hp.ext ?_ ?_ (ih _ _ _ hws' hinv' hl' hfuel')
+        · intro x hx hxv
+          show nmGet ((v, min l st.index) :: sta.low) x = _
+          rw [kc_nmGet_cons, if_neg (fun h => hxv h.symm)]
+          exact hp.lowf x hx
+        · exact ⟨hwvis, fun h => absurd h hws0⟩
+      · -- `w` stays on the stack
+        rw [hloww]
+        simp only [Option.getD_some]
+        have hznum : tjNum sta.indices z = tjNum st.indices z := hp.ext.num (hvs z hz)
+        have hwreachv : TjReach succ w v := by
+          rw [hl.stack] at hz
+          rcases List.mem_append.1 hz with h | h
+          · exact hzr.trans (hl.up z h)
+          · rcases List.mem_cons.1 h with h | h
+            · subst h; exact hzr
+            · exact hzr.trans (hsp.2.1 z h).2
+        have hl' := hl.step hvs hp.ext (sw ++ [w]) (by rw [hstk]; simp) lw
+          (fun h => by
+            refine ⟨z, ?_, hzn, (TjReach.one hwv).trans hzr⟩
+            rw [hl.stack] at hz
+            rcases List.mem_append.1 hz with h1 | h1
+            · have := hsp.1 z h1
+              have := hl.le
+              omega
+            · exact h1)
+          (fun x hx => by
+            rcases List.mem_append.1 hx with h | h
+            · exact (hupw x h).trans hwreachv
+            · simp only [List.mem_singleton] at h
+              subst h; exact hwreachv)
+          (fun x hx y hy => by
+            have := hedw x hx y hy
+            exact ⟨this.1, fun h0 => this.2 (by rw [hl.stack]; simp [h0])⟩)
+        have hinv' := hp.inv.set_low ((v, min l lw) :: sta.low)
+        refine TjLoopPost.cons (stb := { sta with low := (v, min l lw) :: sta.low })
+          (Nat.min_le_left _ _) hp.ext ?_ ?_ (ih _ _ _ hws' hinv' hl' hfuel')
+        · intro x hx hxv
+          show nmGet ((v, min l lw) :: sta.low) x = _
+          rw [kc_nmGet_cons, if_neg (fun h => hxv h.symm)]
+          exact hp.lowf x hx
+        · exact ⟨hwvis, fun h => absurd h hws0⟩
+    | some idxW =>
+      simp only []
+      have hwvis : nmGet st.indices w ≠ none := by rw [hw]; simp
+      have hwnum : tjNum st.indices w = idxW := tjNum_of_some hw
+      by_cases hon : st.stack.contains w = true
+      · rw [if_pos hon, hl.low]
+        simp only [Option.getD_some]
+        have hmem : w ∈ st.stack := by simpa using hon
+        have hl' := hl.step (st' := st) hvs (TjExt.refl _) [] rfl idxW
+          (fun h => by
+            refine ⟨w, ?_, hwnum, .one hwv⟩
+            rw [hl.stack] at hmem
+            rcases List.mem_append.1 hmem with h1 | h1
+            · have := hsp.1 w h1
+              have := hl.le
+              omega
+            · exact h1)
+          (fun x hx => by simp at hx) (fun x hx => by simp at hx)
+        have hinv' := hinv.set_low ((v, min l idxW) :: st.low)
+        refine TjLoopPost.cons (stb := { st with low := (v, min l idxW) :: st.low })
+          (Nat.min_le_left _ _) (TjExt.refl _) ?_ ?_ (ih _ _ _ hws' hinv' hl' hfuel)
+        · intro x hx hxv
+          show nmGet ((v, min l idxW) :: st.low) x = _
+          rw [kc_nmGet_cons, if_neg (fun h => hxv h.symm)]
+        · refine ⟨hwvis, fun _ => ?_⟩
+          show min l idxW ≤ tjNum st.indices w
+          rw [hwnum]; exact Nat.min_le_right _ _
+      · rw [if_neg hon]
+        have hmem : w ∉ st.stack := by simpa using hon
+        refine TjLoopPost.cons (Nat.le_refl _) (TjExt.refl _) (fun _ _ _ => rfl) ?_ (ih _ _ _ hws' hinv hl hfuel)
+        exact ⟨hwvis, fun h => absurd (by rw [hl.stack]; simp [h]) hmem⟩
+
+/-! ### `strongconnect` -/
+
+def tjPush (v : Nat) (st : TjSt) : TjSt :=
+  { st with indices := (v, st.index) :: st.indices, low := (v, st.index) :: st.low,
+            index := st.index + 1, stack := v :: st.stack }
+
+def tjFinish (v : Nat) (st2 : TjSt) : TjSt :=
+  if nmGet st2.low v == nmGet st2.indices v then
+    let r := tjPop v st2.stack []
+    { st2 with stack := r.2, comps := r.1 :: st2.comps }
+  else st2
+
+theorem tjVisitF_succ (succ : Nat → List Nat) (fuel v : Nat) (st : TjSt) :
+    tjVisitF succ (fuel + 1) v st =
+      tjFinish v (tjNbrsF (tjVisitF succ fuel) v (succ v) (tjPush v st)) := rfl
+
+theorem tjPush_ext {v : Nat} {st : TjSt} (hv : nmGet st.indices v = none) :
+    TjExt st.indices (tjPush v st).indices := by
+  intro x k hx
+  show nmGet ((v, st.index) :: st.indices) x = some k
+  rw [kc_nmGet_cons]
+  by_cases h : v = x
+  · subst h; rw [hv] at hx; exact absurd hx (by simp)
+  · rw [if_neg h]; exact hx
+
+theorem TjInv.push {succ : Nat → List Nat} {nodes : List Nat} {st : TjSt} {v : Nat}
+    (h : TjInv succ nodes st) (hv : nmGet st.indices v = none) (hn : v ∈ nodes)
+    (hr : ∀ x, x ∈ st.stack → TjReach succ x v) : TjInv succ nodes (tjPush v st) := by
+  have hext := tjPush_ext (st := st) hv
+  have hvnum : tjNum (tjPush v st).indices v = st.index := by
+    apply tjNum_of_some
+    show nmGet ((v, st.index) :: st.indices) v = _
+    rw [kc_nmGet_cons, if_pos rfl]
+  have hget : ∀ x, nmGet (tjPush v st).indices x = if v = x then some st.index else nmGet st.indices x :=
+    fun x => kc_nmGet_cons _ _ _ _
+  refine ⟨?_, ?_, ?_, ?_, ?_, h.closed, h.conn, h.maxl⟩
+  · show (v :: st.stack).Pairwise _
+    rw [List.pairwise_cons]
+    refine ⟨fun x hx => ⟨?_, hr x hx⟩, ?_⟩
+    · rw [hvnum, hext.num (h.stack_vis hx)]
+      exact h.num_lt (h.stack_vis hx)
+    · exact tj_pairwise_congr _ (fun x hx => hext.num (h.stack_vis hx)) h.stk
+  · intro x
+    rw [hget]
+    show _ ↔ (x ∈ v :: st.stack ∨ x ∈ st.comps.flatten)
+    by_cases hvx : v = x
+    · subst hvx; simp
+    · rw [if_neg hvx, h.vis x, List.mem_cons]
+      constructor
+      · rintro (h1 | h1)
+        · exact .inl (.inr h1)
+        · exact .inr h1
+      · rintro ((h1 | h1) | h1)
+        · exact absurd h1.symm hvx
+        · exact .inl h1
+        · exact .inr h1
+  · show ((v :: st.stack) ++ st.comps.flatten).Nodup
+    rw [List.cons_append, List.nodup_cons]
+    refine ⟨fun hm => ?_, h.nd⟩
+    have := (h.vis v).2 (List.mem_append.1 hm)
+    exact this hv
+  · intro x k hx
+    rw [hget] at hx
+    show k < st.index + 1
+    by_cases hvx : v = x
+    · rw [if_pos hvx] at hx
+      simp only [Option.some.injEq] at hx
+      omega
+    · rw [if_neg hvx] at hx
+      have := h.lt x k hx
+      omega
+  · intro x hx
+    rw [hget] at hx
+    by_cases hvx : v = x
+    · subst hvx; exact hn
+    · rw [if_neg hvx] at hx
+      exact h.node x hx
+
+theorem tj_perm_pop (s2 S C : List Nat) (v : Nat) :
+    ((s2 ++ v :: S) ++ C).Perm (S ++ ((s2 ++ [v]) ++ C)) := by
+  refine List.perm_iff_count.2 (fun a => ?_)
+  simp only [List.count_append, List.count_cons, List.count_nil]
+  omega
+
+theorem tjVisitF_spec {succ : Nat → List Nat} {nodes : List Nat}
+    (hsucc : ∀ u w, w ∈ succ u → w ∈ nodes) :
+    ∀ fuel, TjVisitSpec succ nodes fuel (tjVisitF succ fuel) := by
+  intro fuel
+  induction fuel with
+  | zero => intro w st _ _ _ _ hf; exact absurd hf (Nat.not_lt_zero _)
+  | succ fuel ih =>
+    intro v st hinv hv hn hr hf
+    rw [tjVisitF_succ]
+    have hext01 := tjPush_ext (st := st) hv
+    have hinv1 := hinv.push hv hn hr
+    have hidx1 : nmGet (tjPush v st).indices v = some st.index := by
+      show nmGet ((v, st.index) :: st.indices) v = _
+      rw [kc_nmGet_cons, if_pos rfl]
+    have hloop1 : TjLoop succ v st.stack (tjPush v st) [] st.index := by
+      refine ⟨rfl, ?_, ?_, ⟨v, List.mem_cons_self, tjNum_of_some hidx1, .refl _⟩,
+        fun x hx => by simp at hx, fun x hx => by simp at hx⟩
+      · show nmGet ((v, st.index) :: st.low) v = _
+        rw [kc_nmGet_cons, if_pos rfl]
+      · rw [tjNum_of_some hidx1]; exact Nat.le_refl _
+    have hf1 : tjUnv nodes (tjPush v st).indices < fuel := by
+      have := tjUnv_lt nodes (fun x hx => hext01.vis hx) hn hv (by rw [hidx1]; simp)
+      omega
+    have hpost := tjNbrsF_spec hsucc ih v st.stack (succ v) (tjPush v st) [] st.index
+      (fun w hw => hw) hinv1 hloop1 hf1
+    generalize tjNbrsF (tjVisitF succ fuel) v (succ v) (tjPush v st) = st2 at hpost ⊢
+    rcases hpost.loop with ⟨s2, l, hloop, hle, hws⟩
+    have hinv2 := hpost.inv
+    have hext : TjExt st.indices st2.indices := hext01.trans hpost.ext
+    have hidx2 : nmGet st2.indices v = some st.index := hpost.ext v _ hidx1
+    have hvnum : tjNum st2.indices v = st.index := tjNum_of_some hidx2
+    have hsp := hinv2.split hloop.stack
+    have hlowf : ∀ x, nmGet st.indices x ≠ none → nmGet st2.low x = nmGet st.low x := by
+      intro x hx
+      have hxv : x ≠ v := fun h => by subst h; exact hx hv
+      rw [hpost.lowf x (hext01.vis hx) hxv]
+      show nmGet ((v, st.index) :: st.low) x = _
+      rw [kc_nmGet_cons, if_neg (fun h => hxv h.symm)]
+    have hfacts : ∀ x, x ∈ s2 ++ [v] → ∀ y, y ∈ succ x →
+        nmGet st2.indices y ≠ none ∧ (y ∈ st.stack → l ≤ tjNum st2.indices y) := by
+      intro x hx y hy
+      rcases List.mem_append.1 hx with h | h
+      · exact hloop.edges x h y hy
+      · simp only [List.mem_singleton] at h
+        subst h
+        exact hws y hy
+    unfold tjFinish
+    rw [hloop.low, hidx2]
+    by_cases hroot : l = st.index
+    · -- `v` is a root: pop its component
+      subst hroot
+      have hnd2 := hinv2.nd
+      rw [hloop.stack] at hnd2
+      have hvs2 : v ∉ s2 := by
+        intro hm
+        have := hsp.1 v hm
+        omega
+      simp only [beq_self_eq_true, if_true]
+      rw [hloop.stack, tjPop_append v s2 st.stack [] hvs2]
+      simp only [List.reverse_nil, List.nil_append]
+      have hperm := tj_perm_pop s2 st.stack st2.comps.flatten v
+      have hnd3 : (st.stack ++ ((s2 ++ [v]) ++ st2.comps.flatten)).Nodup := hperm.nodup_iff.1 hnd2
+      have hstackc : ∀ x, x ∈ s2 ++ [v] → x ∉ st2.comps.flatten := by
+        intro x hx hc
+        have h1 := (List.nodup_append.1 hnd3).2.1
+        exact (List.nodup_append.1 h1).2.2 x hx x hc rfl
+      have hclosed : ∀ x, x ∈ (s2 ++ [v]) ++ st2.comps.flatten → ∀ w, w ∈ succ x →
+          w ∈ (s2 ++ [v]) ++ st2.comps.flatten := by
+        intro x hx w hw
+        rcases List.mem_append.1 hx with h | h
+        · have hf := hfacts x h w hw
+          rcases (hinv2.vis w).1 hf.1 with h1 | h1
+          · rw [hloop.stack] at h1
+            rcases List.mem_append.1 h1 with h2 | h2
+            · exact List.mem_append_left _ (List.mem_append_left _ h2)
+            · rcases List.mem_cons.1 h2 with h3 | h3
+              · exact List.mem_append_left _ (by simp [h3])
+              · have := hf.2 h3
+                have := (hsp.2.1 w h3).1
+                omega
+          · exact List.mem_append_right _ h1
+        · exact List.mem_append_right _ (hinv2.closed x h w hw)
+      have hinv3 : TjInv succ nodes { st2 with stack := st.stack, comps := (s2 ++ [v]) :: st2.comps } := by
+        refine ⟨?_, ?_, ?_, hinv2.lt, hinv2.node, ?_, ?_, ?_⟩
+        · show st.stack.Pairwise _
+          have := hinv2.stk
+          rw [hloop.stack, List.pairwise_append, List.pairwise_cons] at this
+          exact this.2.1.2
+        · intro x
+          show _ ↔ (x ∈ st.stack ∨ x ∈ ((s2 ++ [v]) :: st2.comps).flatten)
+          rw [List.flatten_cons, ← List.mem_append, ← hperm.mem_iff, hinv2.vis x, hloop.stack]
+          simp only [List.mem_append]
+        · show (st.stack ++ ((s2 ++ [v]) :: st2.comps).flatten).Nodup
+          rw [List.flatten_cons]
+          exact hnd3
+        · show ∀ x, x ∈ ((s2 ++ [v]) :: st2.comps).flatten → ∀ w, w ∈ succ x →
+            w ∈ ((s2 ++ [v]) :: st2.comps).flatten
+          rw [List.flatten_cons]
+          exact hclosed
+        · intro c hc x hx y hy
+          rcases List.mem_cons.1 hc with h | h
+          · subst h
+            have h1 : TjReach succ x v := by
+              rcases List.mem_append.1 hx with h2 | h2
+              · exact hloop.up x h2
+              · simp only [List.mem_singleton] at h2
+                subst h2; exact .refl _
+            have h2 : TjReach succ v y := by
+              rcases List.mem_append.1 hy with h2 | h2
+              · exact hsp.2.2 y h2
+              · simp only [List.mem_singleton] at h2
+                subst h2; exact .refl _
+            exact h1.trans h2
+          · exact hinv2.conn c h x hx y hy
+        · intro c hc x hx y hxy hyx
+          rcases List.mem_cons.1 hc with h | h
+          · subst h
+            have hy := tj_closed_reach (S := fun z => z ∈ (s2 ++ [v]) ++ st2.comps.flatten) hclosed hxy
+              (List.mem_append_left _ hx)
+            rcases List.mem_append.1 hy with h1 | h1
+            · exact h1
+            · have := tj_closed_reach (S := fun z => z ∈ st2.comps.flatten) hinv2.closed hyx h1
+              exact absurd this (hstackc x hx)
+          · exact hinv2.maxl c h x hx y hxy hyx
+      exact ⟨hinv3, hext, hlowf, hidx2, .inl ⟨rfl, hloop.low⟩⟩
+    · -- `v` stays on the stack
+      have hne : ¬ ((some l == some st.index) = true) := by
+        simp only [beq_iff_eq, Option.some.injEq]; exact hroot
+      rw [if_neg hne]
+      have hlt : l < st.index := by
+        have := hloop.le
+        omega
+      refine ⟨hinv2, hext, hlowf, hidx2, .inr ⟨s2, l, hloop.stack, hloop.low, hlt, ?_, hloop.up, hfacts⟩⟩
+      rcases hloop.wit with ⟨z, hz, hzn, hzr⟩
+      rcases List.mem_cons.1 hz with h | h
+      · subst h; omega
+      · exact ⟨z, h, hzn, hzr⟩
+
+/-! ### the outer loop and the result -/
+
+theorem tjAllF_spec {succ : Nat → List Nat} {nodes : List Nat} {fuel : Nat} {visit : Nat → TjSt → TjSt}
+    (hvisit : TjVisitSpec succ nodes fuel visit) :
+    ∀ (ns : List Nat) (st : TjSt), (∀ n, n ∈ ns → n ∈ nodes) → TjInv succ nodes st → st.stack = [] →
+      tjUnv nodes st.indices < fuel →
+      TjInv succ nodes (tjAllF visit ns st) ∧ (tjAllF visit ns st).stack = [] ∧
+        TjExt st.indices (tjAllF visit ns st).indices ∧
+        ∀ n, n ∈ ns → nmGet (tjAllF visit ns st).indices n ≠ none := by
+  intro ns
+  induction ns with
+  | nil =>
+    intro st _ hinv hs _
+    rw [tjAllF]
+    exact ⟨hinv, hs, TjExt.refl _, fun n hn => by simp at hn⟩
+  | cons a ns ih =>
+    intro st hns hinv hs hf
+    have hns' : ∀ n, n ∈ ns → n ∈ nodes := fun n hn => hns n (List.mem_cons_of_mem _ hn)
+    rw [tjAllF]
+    cases ha : nmGet st.indices a with
+    | none =>
+      simp only []
+      have hp := hvisit a st hinv ha (hns a List.mem_cons_self) (fun x hx => by rw [hs] at hx; simp at hx) hf
+      generalize visit a st = sta at hp ⊢
+      have hsa : sta.stack = [] := by
+        rcases hp.out with ⟨h, _⟩ | ⟨s2, l, _, _, _, ⟨z, hz, _⟩, _⟩
+        · rw [h, hs]
+        · rw [hs] at hz; simp at hz
+      have hfa : tjUnv nodes sta.indices < fuel :=
+        Nat.lt_of_le_of_lt (tjUnv_mono nodes (fun x hx => hp.ext.vis hx)) hf
+      have hr := ih sta hns' hp.inv hsa hfa
+      refine ⟨hr.1, hr.2.1, hp.ext.trans hr.2.2.1, fun n hn => ?_⟩
+      rcases List.mem_cons.1 hn with h | h
+      · subst h
+        exact hr.2.2.1.vis (by rw [hp.idx]; simp)
+      · exact hr.2.2.2 n h
+    | some k =>
+      simp only []
+      have hr := ih st hns' hinv hs hf
+      refine ⟨hr.1, hr.2.1, hr.2.2.1, fun n hn => ?_⟩
+      rcases List.mem_cons.1 hn with h | h
+      · subst h
+        exact hr.2.2.1.vis (by rw [ha]; simp)
+      · exact hr.2.2.2 n h
+
+def tjInit : TjSt := { index := 0, indices := [], low := [], stack := [], comps := [] }
+
+theorem tjInit_inv (succ : Nat → List Nat) (nodes : List Nat) : TjInv succ nodes tjInit := by
+  refine ⟨List.Pairwise.nil, fun x => ?_, List.nodup_nil, fun x k h => ?_, fun x h => ?_,
+    fun x h => ?_, fun c h => ?_, fun c h => ?_⟩
+  · show nmGet [] x ≠ none ↔ (x ∈ ([] : List Nat) ∨ x ∈ ([] : List (List Nat)).flatten)
+    simp [nmGet]
+  · exact absurd h (by simp [tjInit, nmGet])
+  · exact absurd rfl h
+  · exact absurd h (by simp [tjInit])
+  · exact absurd h (by simp [tjInit])
+  · exact absurd h (by simp [tjInit])
+
+theorem tj_flatten_reverse_perm (l : List (List Nat)) : l.reverse.flatten.Perm l.flatten := by
+  induction l with
+  | nil => exact List.Perm.refl _
+  | cons a l ih =>
+    rw [List.reverse_cons, List.flatten_append, List.flatten_cons, List.flatten_cons, List.flatten_nil,
+      List.append_nil]
+    exact (List.perm_append_comm).trans (List.Perm.append_left a ih)
+
+/-- the final state of the run on a graph -/
+def tjFinal (g : Graph) (etype : Option Nat) : TjSt :=
+  tjAllF (tjVisitF (nbrSet g etype .out) (g.nodes.length + 1)) (g.nodes.map (·.id)) tjInit
+
+theorem sccComponents_eq_final (g : Graph) (etype : Option Nat) :
+    sccComponents g etype = (tjFinal g etype).comps.reverse := sccComponents_eq_F g etype
+
+theorem tj_succ_nodes (g : Graph) (etype : Option Nat) :
+    ∀ u w, w ∈ nbrSet g etype .out u → w ∈ g.nodes.map (·.id) := by
+  intro u w hw
+  exact (kc_hasNode_iff g w).1 ((mem_nbrSet_out g etype u w).1 hw).2.1
+
+theorem tjFinal_spec (g : Graph) (etype : Option Nat) :
+    TjInv (nbrSet g etype .out) (g.nodes.map (·.id)) (tjFinal g etype) ∧ (tjFinal g etype).stack = [] ∧
+      ∀ n, n ∈ g.nodes.map (·.id) → nmGet (tjFinal g etype).indices n ≠ none := by
+  have h := tjAllF_spec (tjVisitF_spec (tj_succ_nodes g etype) (g.nodes.length + 1))
+    (g.nodes.map (·.id)) tjInit (fun n hn => hn) (tjInit_inv _ _) rfl
+    (by
+      have := tjUnv_le_length (g.nodes.map (·.id)) tjInit.indices
+      rw [List.length_map] at this
+      omega)
+  exact ⟨h.1, h.2.1, h.2.2.2⟩
+
+theorem tj_sreach_iff (g : Graph) (etype : Option Nat) (u v : Nat) :
+    SReach g etype u v ↔ TjReach (nbrSet g etype .out) u v := by
+  constructor
+  · intro h
+    induction h with
+    | refl => exact .refl _
+    | step h _ ih => exact .step ((mem_nbrSet_out g etype _ _).2 h) ih
+  · intro h
+    induction h with
+    | refl => exact .refl _
+    | step h _ ih => exact .step ((mem_nbrSet_out g etype _ _).1 h) ih
+
+/-- every node lies in exactly one component, exactly once (includes fuel adequacy) -/
+theorem scc_partition (g : Graph) (etype : Option Nat) (hn : NodesUnique g) :
+    (sccComponents g etype).flatten.Perm (g.nodes.map (·.id)) := by
+  rw [sccComponents_eq_final]
+  refine (tj_flatten_reverse_perm _).trans ?_
+  rcases tjFinal_spec g etype with ⟨hinv, hs, hall⟩
+  have hnd := hinv.nd
+  rw [hs, List.nil_append] at hnd
+  refine (List.perm_ext_iff_of_nodup hnd hn).2 (fun a => ?_)
+  constructor
+  · intro ha
+    exact hinv.node a ((hinv.vis a).2 (.inr ha))
+  · intro ha
+    rcases (hinv.vis a).1 (hall a ha) with h | h
+    · rw [hs] at h; simp at h
+    · exact h
+
+theorem scc_members_mutually_reachable (g : Graph) (etype : Option Nat) (c : List Nat)
+    (hc : c ∈ sccComponents g etype) (u : Nat) (hu : u ∈ c) (v : Nat) (hv : v ∈ c) :
+    SReach g etype u v ∧ SReach g etype v u := by
+  rw [sccComponents_eq_final, List.mem_reverse] at hc
+  have hinv := (tjFinal_spec g etype).1
+  exact ⟨(tj_sreach_iff g etype u v).2 (hinv.conn c hc u hu v hv),
+    (tj_sreach_iff g etype v u).2 (hinv.conn c hc v hv u hu)⟩
+
+theorem scc_closed (g : Graph) (etype : Option Nat) (c : List Nat)
+    (hc : c ∈ sccComponents g etype) (u : Nat) (hu : u ∈ c) (v : Nat)
+    (huv : SReach g etype u v) (hvu : SReach g etype v u) : v ∈ c := by
+  rw [sccComponents_eq_final, List.mem_reverse] at hc
+  have hinv := (tjFinal_spec g etype).1
+  exact hinv.maxl c hc u hu v ((tj_sreach_iff g etype u v).1 huv) ((tj_sreach_iff g etype v u).1 hvu)
+
+theorem scc_member_is_node (g : Graph) (etype : Option Nat) (c : List Nat)
+    (hc : c ∈ sccComponents g etype) (u : Nat) (hu : u ∈ c) : g.hasNode u = true := by
+  rw [sccComponents_eq_final, List.mem_reverse] at hc
+  have hinv := (tjFinal_spec g etype).1
+  rw [kc_hasNode_iff]
+  exact hinv.node u ((hinv.vis u).2 (.inr (List.mem_flatten.2 ⟨c, hc, hu⟩)))
+
+/-- the members of a component are exactly the nodes mutually reachable with any of its members -/
+theorem scc_exact (g : Graph) (etype : Option Nat) (hn : NodesUnique g) (c : List Nat)
+    (hc : c ∈ sccComponents g etype) (u : Nat) (hu : u ∈ c) (v : Nat) :
+    v ∈ c ↔ (g.hasNode v = true ∧ SReach g etype u v ∧ SReach g etype v u) := by
+  have _ := hn
+  constructor
+  · intro hv
+    exact ⟨scc_member_is_node g etype c hc v hv, scc_members_mutually_reachable g etype c hc u hu v hv⟩
+  · rintro ⟨_, h1, h2⟩
+    exact scc_closed g etype c hc u hu v h1 h2
+
+/-- no node id occurs twice in the result (no hypothesis on the node list needed) -/
+theorem scc_component_nodup (g : Graph) (etype : Option Nat) :
+    (sccComponents g etype).flatten.Nodup := by
+  rw [sccComponents_eq_final]
+  rcases tjFinal_spec g etype with ⟨hinv, hs, _⟩
+  have hnd := hinv.nd
+  rw [hs, List.nil_append] at hnd
+  exact (tj_flatten_reverse_perm _).nodup_iff.2 hnd
+
+/-! ### closed examples -/
+
+/-- directed 3-cycle 1→2→3→1 (type 0), a tail 3→4 (type 0) and an undirected edge 4—5 (type 1) -/
 def tjExG : Graph :=
   { nodes := [⟨1, none⟩, ⟨2, none⟩, ⟨3, none⟩, ⟨4, none⟩, ⟨5, none⟩],
     edges := [⟨1, 1, 2, true, 0, none, none⟩, ⟨2, 2, 3, true, 0, none, none⟩,
               ⟨3, 3, 1, true, 0, none, none⟩, ⟨4, 3, 4, true, 0, none, none⟩,
               ⟨5, 4, 5, false, 1, none, none⟩] }
 
-#eval sccComponents tjExG none
-#eval sccComponents tjExG (some 0)
+/-- does the result contain a component with exactly these members -/
+def tjHasComp (r : List (List Nat)) (c : List Nat) : Bool :=
+  r.any (fun d => d.length == c.length && c.all (fun x => d.contains x))
 
-example : sccComponents tjExG none = [[5, 4], [3, 2, 1]] := by decide
+example : sccComponents tjExG none = [[5, 4], [3, 2, 1]] := by rw [sccComponents_eq_F]; decide
+
+example : tjHasComp (sccComponents tjExG none) [1, 2, 3] = true ∧
+    tjHasComp (sccComponents tjExG none) [4, 5] = true ∧ (sccComponents tjExG none).length = 2 := by
+  rw [sccComponents_eq_F]; decide
+
+/-- only edges of type 0: the undirected edge 4—5 does not count, 4 and 5 are singletons -/
+example : sccComponents tjExG (some 0) = [[4], [3, 2, 1], [5]] := by rw [sccComponents_eq_F]; decide
+
+example : tjHasComp (sccComponents tjExG (some 0)) [1, 2, 3] = true ∧
+    tjHasComp (sccComponents tjExG (some 0)) [4] = true ∧
+    tjHasComp (sccComponents tjExG (some 0)) [5] = true ∧ (sccComponents tjExG (some 0)).length = 3 := by
+  rw [sccComponents_eq_F]; decide
+
+/-- only edges of type 1: the cycle is gone, 4—5 remains -/
+example : tjHasComp (sccComponents tjExG (some 1)) [4, 5] = true ∧
+    (sccComponents tjExG (some 1)).length = 4 := by
+  rw [sccComponents_eq_F]; decide
 
 end Neumann.Paths
